@@ -29,10 +29,16 @@ fn roots_on(r: &mut Rec, ns: &[u32]) {
     r.i1("cbrt", "method", "\"n\":3", 0, 2, |a| a.cbrt());
     r.u1("sqrt", "roots_trait", "\"n\":2", 0, 2, |a| Roots::sqrt(a));
     r.i1("cbrt", "roots_trait", "\"n\":3", 0, 2, |a| Roots::cbrt(a));
-    for &n in ns {
+    r.i1("sqrt", "roots_trait", "\"n\":2", 0, 2, |a| Roots::sqrt(a));
+    r.u1("cbrt", "roots_trait", "\"n\":3", 0, 2, |a| Roots::cbrt(a));
+    for (k, &n) in ns.iter().enumerate() {
         let ex = format!("\"sc\":{}", sc_list(&[n.sc()]));
         r.u1("nth_root", "method", &ex, 0, 2, |a| a.nth_root(n));
         r.i1("nth_root", "method", &ex, 0, 2, |a| a.nth_root(n));
+        if k % 2 == 0 {
+            r.u1("nth_root", "roots_trait", &ex, 0, 2, |a| Roots::nth_root(a, n));
+            r.i1("nth_root", "roots_trait", &ex, 0, 2, |a| Roots::nth_root(a, n));
+        }
     }
 }
 
@@ -110,6 +116,17 @@ fn pow_forms(r: &mut Rec, e: u128, k: u64) {
         ($t:ident, $n:expr) => {
             if let Ok(x) = <$t>::try_from(e) {
                 let ex = format!("\"sc\":{}", sc_list(&[x.sc()]));
+                if e < 4 || e % 32 == 31 || e > 1 << 40 {
+                    // every form of both types on the smallest, some middle and the astronomical exponents
+                    r.u1("pow", concat!("val_", stringify!($t)), &ex, 0, 2, |a| Pow::pow(a.clone(), x));
+                    r.u1("pow", concat!("ref_", stringify!($t)), &ex, 0, 2, |a| Pow::pow(a, x));
+                    r.u1("pow", concat!("val_ref", stringify!($t)), &ex, 0, 2, |a| Pow::pow(a.clone(), &x));
+                    r.u1("pow", concat!("ref_ref", stringify!($t)), &ex, 0, 2, |a| Pow::pow(a, &x));
+                    r.i1("pow", concat!("val_", stringify!($t)), &ex, 0, 2, |a| Pow::pow(a.clone(), x));
+                    r.i1("pow", concat!("ref_", stringify!($t)), &ex, 0, 2, |a| Pow::pow(a, x));
+                    r.i1("pow", concat!("val_ref", stringify!($t)), &ex, 0, 2, |a| Pow::pow(a.clone(), &x));
+                    r.i1("pow", concat!("ref_ref", stringify!($t)), &ex, 0, 2, |a| Pow::pow(a, &x));
+                } else {
                 match (k + $n) % 4 {
                     0 => {
                         r.u1("pow", concat!("val_", stringify!($t)), &ex, 0, 2, |a| Pow::pow(a.clone(), x));
@@ -127,6 +144,7 @@ fn pow_forms(r: &mut Rec, e: u128, k: u64) {
                         r.u1("pow", concat!("ref_ref", stringify!($t)), &ex, 0, 2, |a| Pow::pow(a, &x));
                         r.i1("pow", concat!("val_ref", stringify!($t)), &ex, 0, 2, |a| Pow::pow(a.clone(), &x));
                     }
+                }
                 }
             }
         };
@@ -168,6 +186,10 @@ fn pow_big_exp(r: &mut Rec) {
     });
     r.op("pow_big", "I_ref_ref", &[i(0), u(1)], &[i(2)], "\"ty\":\"I\"", |g| {
         g.i[2] = Pow::pow(&g.i[0], &g.u[1]);
+        Ret::none()
+    });
+    r.op("pow_big", "I_val_val", &[i(0), u(1)], &[i(2)], "\"ty\":\"I\"", |g| {
+        g.i[2] = Pow::pow(g.i[0].clone(), g.u[1].clone());
         Ret::none()
     });
     r.op("pow_big", "I_ref_val", &[i(0), u(1)], &[i(2)], "\"ty\":\"I\"", |g| {
@@ -329,7 +351,12 @@ fn gcd_forms(r: &mut Rec) {
         let (a, b) = (&r.g.i[0], &r.g.i[1]);
         format!("\"part\":\"r\",\"hint\":[{}]", crate::drivers::div::hint_q("trunc", sg(a.sign()), a.magnitude().verif_raw(), sg(b.sign()), b.magnitude().verif_raw()))
     };
-    r.x(p).op("is_multiple_of", "integer_method", &[i(0), i(1)], &[], "\"ty\":\"I\"", |g| Ret::none().b(g.i[0].is_multiple_of(&g.i[1])));
+    r.x(p.clone()).op("is_multiple_of", "integer_method", &[i(0), i(1)], &[], "\"ty\":\"I\"", |g| Ret::none().b(g.i[0].is_multiple_of(&g.i[1])));
+    r.x(p).op("is_multiple_of", "divides", &[i(0), i(1)], &[], "\"ty\":\"I\"", |g| {
+        #[allow(deprecated)]
+        let v = g.i[0].divides(&g.i[1]);
+        Ret::none().b(v)
+    });
     for k in 0..2 {
         r.q_u("is_even", "method", "", k, |a| Ret::none().b(a.is_even()));
         r.q_u("is_odd", "method", "", k, |a| Ret::none().b(a.is_odd()));
